@@ -599,3 +599,15 @@ Definition load (fuel : nat) (ndocs : N) (y : yaml) : outcome top :=
        end.
 
 End Loader.
+
+(* ---- serving: the option lengths of a router advertisement ------------------
+   radv/icmppkt.rs RDNSS: `u8::try_from(1 + servers.len() * 2).unwrap()`;
+   DNSSL: `1 + (dnssl.len() / 8) as u8` after padding to a multiple of 8.  An
+   interface without its own list announces the top-level one. *)
+Definition rdnss_optlen (n : N) : outcome N :=
+  if 1 + 2 * n <? 256 then Ok (1 + 2 * n) else Panic UnwrapNone.
+Definition dnssl_optlen (octets : N) : outcome N :=
+  let padded := ((octets + 7) / 8) * 8 in add_chk 8 1 (cast 8 (padded / 8)).
+Definition ra_lens_no_panic (t : top) : bool :=
+  forallb (fun i => negb (is_panic (rdnss_optlen (i_rdnss i))) && negb (is_panic (dnssl_optlen (i_dnssl i)))) (t_ifaces t)
+  && negb (is_panic (rdnss_optlen (t_dns6 t))) && negb (is_panic (dnssl_optlen (t_dnssl t))).
